@@ -284,6 +284,16 @@ class TinyDB(DataBase):
                     return True
             return False
 
+    def remove_by_id(self, index: int) -> bool:
+        """
+        Atomically remove the document stored under the given identifier.
+        """
+        with self._lock:
+            if not self.database.contains(doc_id=index):
+                return False
+            self.database.remove(doc_ids=[index])
+            return True
+
     def all(self) -> tuple[dict, ...]:
         """
         Get all data from the database.
